@@ -28,7 +28,7 @@ func otherName(k int64) int64 { return (k + 1 + 2) % nNames }
 func nameOf(s string) int64 { return nameKey(s) }
 
 func (g *Gen) scenario(p *Pool) []Op {
-	switch g.r.below(24) {
+	switch g.r.below(28) {
 	case 0, 1:
 		return g.scBusStatic(p)
 	case 2, 3:
@@ -51,8 +51,12 @@ func (g *Gen) scenario(p *Pool) []Op {
 		return g.scBuilder(p)
 	case 20, 21:
 		return g.scOversize(p)
-	default:
+	case 22, 23:
 		return g.scClone(p)
+	case 24, 25:
+		return g.scBulkSent(p)
+	default:
+		return g.scResize(p)
 	}
 }
 
